@@ -132,8 +132,16 @@ def attr_name_key(name: Any) -> Any:
             decoded.append({"n": "\n", "r": "\r", "t": "\t"}.get(nxt, nxt))
             index += 2
             continue
-        if ch == "$" and index + 1 < end and name[index + 1] == "{":
-            return ("dynamic", name)
+        if ch == "$" and index + 1 < end:
+            nxt = name[index + 1]
+            if nxt == "{":
+                return ("dynamic", name)
+            if nxt not in '"\\':
+                # `$` takes the next character with it, so `$${x}` is the
+                # literal text `$${x}`, not an interpolation.
+                decoded.append(ch + nxt)
+                index += 2
+                continue
         if ch == '"':
             return ("dynamic", name)
         decoded.append(ch)
